@@ -460,6 +460,8 @@ bool Session::sequence_check(const unsigned seqnum, const Message *msg)
 			_resend_highest = seqnum;
 			do_state_change(States::st_resend_request_sent);
 		}
+		else if (_state == States::st_logon_received)
+			; // a Logon above the expected number: handle_logon requests the resend once the logon has been answered
 		// If SessionConfig has *not* been set, assume wrong logon sequence is checked.
 		else if (!_sf || !_sf->get_ignore_logon_sequence_check_flag(_sf->_ses))
 			throw InvalidMsgSequence(seqnum, _next_receive_seq);
@@ -517,6 +519,8 @@ bool Session::handle_logon(const unsigned seqnum, const Message *msg)
 
 		enforce(seqnum, msg);
 		do_state_change(States::st_continuous);
+		if (seqnum > _next_receive_seq && (!_sf || !_sf->get_ignore_logon_sequence_check_flag(_sf->_ses)))
+			sequence_check(seqnum, msg); // messages were missed while disconnected: request them now
 	}
 	else // acceptor
 	{
@@ -620,6 +624,8 @@ bool Session::handle_logon(const unsigned seqnum, const Message *msg)
 			_connection->set_hb_interval(hbi());
 			send(generate_logon(hbi(), davi()));
 			do_state_change(States::st_continuous);
+			if (seqnum > _next_receive_seq && (!_sf || !_sf->get_ignore_logon_sequence_check_flag(_sf->_ses)))
+				sequence_check(seqnum, msg); // messages were missed while disconnected: request them now
 			slout_info << "Client setting heartbeat interval to " << hbi();
 		}
 		else
